@@ -143,6 +143,19 @@ claim('C04',
       'computation. No native replay driver (VIOLATION lines end in no-failing-input-found).',
       'DESIGN.md 4 C04')
 
+claim('C07',
+      'Evaluators only: function and loop contracts on the real ComputeValue overloads for Max, Min, Abs, And, Or, Not, Div '
+      '(zero-divisor branch), IfThen, Implication, AllDiff, Count, NumberofConst, NumberofVar and on Violation::Check, for argument '
+      'lists of any length and any point. Max/Min: >= / <= every argument (arbitrary witness) and <= / >= every common bound of '
+      'the arguments, i.e. exactly the maximum/minimum; And/Or: 0/1, decided by any false/true witness and 1/0 when none exists; '
+      'Abs/Not/IfThen/Implication: the mathematical value; AllDiff: 0 whenever two arguments are equal; Count: in [0,n], n when '
+      'all true, 0 when none; Violation::Check: violated iff viol > epsabs and (valX == 0 or |viol/valX| > epsrel).',
+      'Trusted: CBMC (fabs/round models), extractor, arguments are valid variable indices (model invariant, assumed at each access), '
+      'no NaN in the point. Not decided: exact counting for Count/Numberof, the quotient of Div (double division is beyond every '
+      'installed back end), the converse of AllDiff, transcendental evaluators, which constraints are checked, recomputation of '
+      'auxiliary variables, option plumbing, solve code 150. No native replay driver.',
+      'DESIGN.md 4 C07')
+
 for pid, reason in [
     ('C01', 'relational whole-pipeline equivalence across ~12k lines of CRTP templates; no function boundary carries it and the code is outside the mechanically extractable C subset (DESIGN.md 5)'),
     ('C09', 'whole-process behaviour (exit status, files, exception propagation through try/catch) - not expressible as function contracts here (DESIGN.md 5)'),
